@@ -275,6 +275,7 @@ struct Agg {
     hashes: BTreeMap<u64, u64>,
     harness_errors: Vec<String>,
     slowest: (f64, u64),
+    suppressed_runs: u64,
 }
 
 pub fn run_check<P: Prop>(prop: P, tier: Tier) -> ! {
@@ -322,7 +323,8 @@ pub fn run_check<P: Prop>(prop: P, tier: Tier) -> ! {
 
     // ---- batch
     let agg = Arc::new(Mutex::new(Agg { evaluations: 0, counters: BTreeMap::new(), nontrivial: HashSet::new(), states: HashSet::new(), sim_ns: 0, log_events: 0,
-        first_by_class: BTreeMap::new(), violating_runs: 0, samples: BTreeMap::new(), hashes: BTreeMap::new(), harness_errors: Vec::new(), slowest: (0.0, 0) }));
+        first_by_class: BTreeMap::new(), violating_runs: 0, samples: BTreeMap::new(), hashes: BTreeMap::new(), harness_errors: Vec::new(), slowest: (0.0, 0), suppressed_runs: 0 }));
+    let known_arc = Arc::new(known.clone());
     let next = Arc::new(AtomicU64::new(0));
     let stop = Arc::new(AtomicBool::new(false));
     let slots: Arc<Vec<Mutex<Option<(u64, Instant)>>>> = Arc::new((0..workers).map(|_| Mutex::new(None)).collect());
@@ -330,7 +332,7 @@ pub fn run_check<P: Prop>(prop: P, tier: Tier) -> ! {
     let recheck = budget.recheck.min(runs);
     let mut handles = Vec::new();
     for w in 0..workers {
-        let (prop, agg, next, stop, slots) = (prop.clone(), agg.clone(), next.clone(), stop.clone(), slots.clone());
+        let (prop, agg, next, stop, slots, known_w) = (prop.clone(), agg.clone(), next.clone(), stop.clone(), slots.clone(), known_arc.clone());
         handles.push(std::thread::spawn(move || {
             loop {
                 if stop.load(Ordering::Relaxed) || Instant::now() >= deadline { break; }
@@ -358,6 +360,8 @@ pub fn run_check<P: Prop>(prop: P, tier: Tier) -> ! {
                 if let Some(h) = r.harness_panic { a.harness_errors.push(format!("run {} (seed {}): {}", i, run_seed, h)); }
                 if let Some(v) = r.violation {
                     a.violating_runs += 1;
+                    // every violating run is matched against the listed findings on its own (un-minimised) case
+                    if known_w.iter().any(|k| k.status == "known" && k.class == v.class && prop.matches_known(&case, &v, &k.matcher)) { a.suppressed_runs += 1; continue; }
                     let cj = serde_json::to_value(&case).unwrap();
                     let replace = match a.first_by_class.get(&v.class) { Some((j, _, _)) => i < *j, None => true };
                     if replace { a.first_by_class.insert(v.class.clone(), (i, cj, v)); }
@@ -415,15 +419,13 @@ pub fn run_check<P: Prop>(prop: P, tier: Tier) -> ! {
     let mut a = agg.lock().unwrap();
     // ---- violations: match against known findings, minimise, write replay
     let mut reported = 0u64;
-    let mut suppressed = 0u64;
-    let firsts: Vec<(String, (u64, Value, Violation))> = a.first_by_class.iter().map(|(k, v)| (k.clone(), v.clone())).collect();
+        let firsts: Vec<(String, (u64, Value, Violation))> = a.first_by_class.iter().map(|(k, v)| (k.clone(), v.clone())).collect();
     for (class, (i, cj, _v)) in firsts {
         let case: P::Case = serde_json::from_value(cj).unwrap();
-        let (min_case, min_v, execs) = shrink_case(&prop, case, &class, 600, 90);
-        if let Some(k) = known.iter().find(|k| k.status == "known" && k.class == class && prop.matches_known(&min_case, &min_v, &k.matcher)) {
-            outln!("[{}] a violation of class {} (run {}) falls into the region of listed finding {}; suppressed", id, class, i, k.id);
-            suppressed += 1;
-            continue;
+        let (mut min_case, mut min_v, execs) = shrink_case(&prop, case.clone(), &class, 600, 90);
+        if known.iter().any(|k| k.status == "known" && k.class == class && prop.matches_known(&min_case, &min_v, &k.matcher)) {
+            // minimisation drifted into the region of a listed finding: report the original case instead
+            min_case = case; min_v = run_fresh(&prop, &min_case, false).violation.unwrap_or(min_v);
         }
         let rr = run_fresh(&prop, &min_case, true);
         let path = write_replay(&*prop, &format!("{}", mix(seed, i)), mix(seed, i), &min_case, &min_v, &rr.ctx.log.lines);
@@ -459,7 +461,7 @@ pub fn run_check<P: Prop>(prop: P, tier: Tier) -> ! {
             "distinct_states_rule": "hash of the reference-model state (or schedule hash for threaded engines) after each step, capped at 4096 per run",
             "real_vs_stub": prop.real_vs_stub(),
             "determinism_recheck": {"runs_executed_twice": rechecked, "event_log_hash_mismatches": mismatches.len()},
-            "known_findings_replayed": known_report, "violations_suppressed_by_known_findings": suppressed,
+            "known_findings_replayed": known_report, "violating_runs_suppressed_by_known_findings": a.suppressed_runs,
             "violating_runs_in_batch": a.violating_runs,
             "zero_probes": zero_probes, "slowest_run": {"seconds": a.slowest.0, "run_index": a.slowest.1},
             "exhaustive": false
@@ -468,7 +470,7 @@ pub fn run_check<P: Prop>(prop: P, tier: Tier) -> ! {
     });
     let evdir = verif_dir().join("evidence"); let _ = std::fs::create_dir_all(&evdir);
     std::fs::write(evdir.join(format!("{}.json", id)), serde_json::to_string_pretty(&ev).unwrap()).expect("write evidence");
-    outln!("[{}] evaluations={} distinct_nontrivial={} violating_runs={} reported={} suppressed={} recheck={}/{} slowest={:.1}s@{} wall={:.1}s", id, a.evaluations, a.nontrivial.len(), a.violating_runs, reported, suppressed, rechecked - mismatches.len() as u64, rechecked, a.slowest.0, a.slowest.1, wall_s);
+    outln!("[{}] evaluations={} distinct_nontrivial={} violating_runs={} reported={} suppressed_runs={} recheck={}/{} slowest={:.1}s@{} wall={:.1}s", id, a.evaluations, a.nontrivial.len(), a.violating_runs, reported, a.suppressed_runs, rechecked - mismatches.len() as u64, rechecked, a.slowest.0, a.slowest.1, wall_s);
     if !a.harness_errors.is_empty() {
         for e in a.harness_errors.iter().take(5) { outln!("HARNESS-ERROR {}", e); }
         std::process::exit(2);
